@@ -9,7 +9,7 @@ ENTRIES = ["entry_relabel", "entry_neighbors", "entry_colors", "entry_euler", "e
            "entry_check_acc"]
 EXTRACT = ("theories/Extract/XC15.v", "c15", ENTRIES)
 PYX = {"_cpmorphology2.pyx": ["_all_connected_components"]}
-RULE = ("label images: shapes skewed to 1x1, 1xN, Nx1, 2x2, 3x3 and up to 12x12 (thorough 20x20); contents from "
+RULE = ("label images: shapes skewed to 1x1, 1xN, Nx1, 2x2, 3x3 and up to 12x12 (thorough 16x16); contents from "
         "random labels at several densities, connected components of noise with random renumbering, rings and nested "
         "rings (holes), split labels, absent label numbers (x3), objects on the border, checkerboards, several dtypes; "
         "every image goes through relabel, find_neighbors, color_labels and euler_number (indexes incl. absent labels, "
@@ -121,7 +121,7 @@ def _tiled(rng, big):
     return np.full((h, w), int(rng.randint(1, 6)))
 
 
-def _renumber(rng, lab):
+def _renumber(rng, lab, pbig=1.0):
     """numbering variants: as is / absent numbers / sparse numbering up to 60000 / largest label at a dtype maximum"""
     lab = np.asarray(lab, int)
     mx = int(lab.max())
@@ -132,6 +132,8 @@ def _renumber(rng, lab):
         return lab * int(rng.choice([2, 3, 7])), "absent"
     if u < 0.85:
         top = int(rng.choice([300, 300, 5000, 60000]))
+        if top > 10000 and rng.rand() >= pbig:
+            top = 5000
         if top > 10000:
             lab = lab[:6, :6]; mx = int(lab.max())
             if mx == 0:
@@ -139,6 +141,8 @@ def _renumber(rng, lab):
         tab = np.hstack([[0], np.sort(rng.choice(np.arange(1, top + 1), mx, replace=False))])
         return tab[lab], "sparse%d" % top
     top = int(rng.choice([127, 127, 255, 255, 32767, 65535]))
+    if top > 10000 and rng.rand() >= pbig:
+        top = 255
     if top > 10000:
         lab = lab[:6, :6]; mx = int(lab.max())
     if mx >= top or mx == 0:
@@ -147,8 +151,8 @@ def _renumber(rng, lab):
     return tab[lab], "dtype_max_%d" % top
 
 
-def _img_cases(rng, lab, note=None):
-    lab, num = _renumber(rng, lab)
+def _img_cases(rng, lab, pbig=1.0):
+    lab, num = _renumber(rng, lab, pbig)
     mx = int(lab.max())
     ok = [d for d in INT_DTYPES if np.iinfo(d).max >= mx]
     if num.startswith("dtype_max"):
@@ -255,7 +259,8 @@ CORPUS_GRAPHS = [
 
 def generate(ctx):
     rng = ctx.rng
-    big = ctx.n(12, 20)
+    big = ctx.n(12, 16)
+    pbig = ctx.n(1.0, 0.12)          # share of the 16-bit-range numberings that is kept (cost of the per-label spec)
     cases = []
     for img in CORPUS_IMAGES:
         cases.extend(_img_cases(rng, img))
@@ -263,7 +268,7 @@ def generate(ctx):
         cases.append({"fn": "acc", "i": list(i), "j": list(j)})
     ncorpus = len(cases)
     for _ in range(ctx.n(700, 8000)):
-        cases.extend(_img_cases(rng, _tiled(rng, big) if rng.rand() < 0.2 else _image(rng, big)))
+        cases.extend(_img_cases(rng, _tiled(rng, big) if rng.rand() < 0.2 else _image(rng, big), pbig))
     chain_max = ctx.n(3000, 50000)
     for _ in range(ctx.n(1500, 20000)):
         i, j = _graph(rng, chain_max if rng.rand() < ctx.n(0.05, 0.004) else 200)
@@ -271,7 +276,7 @@ def generate(ctx):
     # large vertex numbers with few edges (many isolated vertices); ids near 2^31 would need label arrays of
     # 2^31 entries (> 24 GB with bincount) and are excluded, counted
     ctx.count("excluded_vertex_ids_near_2^31")
-    for _ in range(ctx.n(4, 12)):
+    for _ in range(ctx.n(4, 8)):
         top = int(rng.choice([70000, ctx.n(100000, 400000)]))
         ne = int(rng.randint(1, 8))
         i = rng.randint(0, top, ne); j = rng.randint(0, top, ne); i[0] = top
